@@ -9,8 +9,17 @@ Case kinds
   plain  a numeric / timestamp / fixed-string / categorical field receives a partition of a value
          sequence (write, or write_part* + complete); dtype, data, every slice, every item and the key are
          observed, in the session and after reopen.
+  multi  SEVERAL fields (indexed strings with equal or different chunk sizes, plain numeric fields; memory- and
+         HDF5-backed in one session / one dataframe) receive an INTERLEAVED history (a batch of column a, a batch
+         of column b, ...; fields are created when first touched, reads in between); every field is observed as in
+         idx / plain.  Model: a world of independent field states (coq/Model/FieldWorld.v part 1).
+  alias  arrays as OBJECTS: the caller keeps, refills and edits the arrays it passes to write_part / write, passes
+         the same array (or a view of it, or a view of a field's own storage) to several fields, edits a field
+         through data[i] = v; every caller array and every field is observed.  Model: heap of arrays with
+         identity (FieldWorld.v part 2) vs the value semantics (coq/Spec/FieldWorldSpec.v).
 """
 import itertools, os, struct
+from harness import hot
 
 PROP, NUM = 'C01', 1
 PROPS_FILES = ['Props/C01.v']
@@ -84,6 +93,15 @@ def make_array(dt, vals):
 
 
 # ------------------------------------------------------------------------------- implementation runner
+def _scribble(arg):
+    """the caller's argument object is overwritten right after the call that received it (a loader reusing its
+    batch list / array does exactly that): a field must hold the values it was given, not the object."""
+    if isinstance(arg, list):
+        arg[:] = ['\x00scribbled'] * (len(arg) + 1)
+    elif arg is not None and arg.size:
+        arg.view(_np.uint8)[...] ^= 0xFF            # every byte of every element changes, in place
+
+
 def _guard(fn):
     try:
         return fn()
@@ -98,24 +116,29 @@ def _strs(r):
     return [[-1] if s is None else list(s.encode()) for s in r]
 
 
-def _observe_idx(f, ro, extra):
+def _observe_idx(f, ro, extra, lite=None, nw=0):
     ind = [int(x) for x in f.indices[:]]
     vals = [int(x) & 255 for x in f.values[:]]
     n = len(f.data)
     assert n == len(f)
     w = f.data
-    pairs = [(a, b) for a in range(n + 1) for b in range(a, n + 1)]
+    if lite is None:
+        pairs = [(a, b) for a in range(n + 1) for b in range(a, n + 1)]
+    else:
+        pairs = [(a, b) for a, b in lite]
     slw = [_guard(lambda: _strs(w[a:b])) for a, b in pairs]
     slr = [_guard(lambda: _strs(ro[a:b])) for a, b in pairs]
     # the full read data[:] must agree with data[0:n]
-    full = _guard(lambda: _strs(w[:]))
-    if pairs and full != slw[n]:
-        slw[n] = ['FULL-READ-DIFFERS', full, slw[n]]
-    fullr = _guard(lambda: _strs(ro[:]))
-    if pairs and fullr != slr[n]:
-        slr[n] = ['FULL-READ-DIFFERS', fullr, slr[n]]
+    if (0, n) in pairs:
+        k = pairs.index((0, n))
+        full = _guard(lambda: _strs(w[:]))
+        if full != slw[k]:
+            slw[k] = ['FULL-READ-DIFFERS', full, slw[k]]
+        fullr = _guard(lambda: _strs(ro[:]))
+        if fullr != slr[k]:
+            slr[k] = ['FULL-READ-DIFFERS', fullr, slr[k]]
     items = []
-    for i in range(n):
+    for i in (range(n) if lite is None else [a for a, _ in lite if a < nw]):
         a = _guard(lambda: list(w[i].encode()))
         b = _guard(lambda: list(ro[i].encode()))
         items.append(a if a == b else ['RO-W-DIFFER', a, b])
@@ -154,11 +177,15 @@ def _run_idx(case):
         assert type(d).__name__ == 'WriteableIndexedFieldArray'
         for op in case['ops']:
             if op[0] == 'p':
-                d.write_part(op[1])
+                arg = list(op[1])
+                d.write_part(arg)
+                _scribble(arg)
             elif op[0] == 'c':
                 d.complete()
             elif op[0] == 'w':
-                d.write(op[1])
+                arg = list(op[1])
+                d.write(arg)
+                _scribble(arg)
             elif op[0] == 'x':
                 d.clear()
             elif op[0] == 'r':
@@ -181,7 +208,9 @@ def _run_idx(case):
             assert type(ro).__name__ == 'ReadOnlyIndexedFieldArray'
         else:
             ro = fld.ReadOnlyIndexedFieldArray(f, f.indices, f.values)
-        sess = _observe_idx(f, ro, case.get('extra', []))
+        lite = case.get('lite')
+        nw = len(_written(case)) if lite is not None else 0
+        sess = _observe_idx(f, ro, case.get('extra', []), lite, nw)
         if not case['h5']:
             return [sess]
         s.close_dataset('d')
@@ -192,7 +221,7 @@ def _run_idx(case):
         assert type(f).__name__ == 'IndexedStringField' and f.indexed
         assert int(f.chunksize) == case['cs']
         rof = fld.IndexedStringField(s, ds['df']._h5group['f'], None, write_enabled=False)
-        re = _observe_idx(f, rof.data, case.get('extra', []))
+        re = _observe_idx(f, rof.data, case.get('extra', []), lite, nw)
         return [sess, re]
     finally:
         try:
@@ -260,13 +289,18 @@ def _run_plain(case):
             else:
                 raise ValueError(ft)
         d = f.data
-        parts = [make_array(pdt, vals) for pdt, vals in case['parts']]
+        # the argument arrays alternate between the two forms a caller can pass: an array that owns its memory
+        # (np.array(...)) and a view into a larger buffer (buffer[:n], what the library's own streaming code passes)
+        nv = sum(len(vals) for _, vals in case['parts'])
+        parts = [_own_array(pdt, vals, (nv + i) % 2) for i, (pdt, vals) in enumerate(case['parts'])]
         if case['how'] == 'write':
             assert len(parts) == 1
             d.write(parts[0])
+            _scribble(parts[0])
         else:
             for p in parts:
                 d.write_part(p)
+                _scribble(p)
             d.complete()
         sess = _observe_plain(f, case)
         if not case['h5']:
@@ -296,9 +330,224 @@ def _run_plain(case):
             os.unlink(path)
 
 
+# ------------------------------------------------------------------------------- several fields, interleaved
+def _mk_plain(s, df, name, h5, ft, dt, key=None):
+    fld = _fld
+    if h5:
+        if ft == 'numeric':
+            return df.create_numeric(name, dt)
+        if ft == 'timestamp':
+            return df.create_timestamp(name)
+        if ft == 'fixed':
+            return df.create_fixed_string(name, int(dt[1:]))
+        return df.create_categorical(name, dt, dict((k, v) for k, v in key))
+    if ft == 'numeric':
+        return fld.NumericMemField(s, dt)
+    if ft == 'timestamp':
+        return fld.TimestampMemField(s)
+    if ft == 'fixed':
+        return fld.FixedStringMemField(s, int(dt[1:]))
+    return fld.CategoricalMemField(s, dt, dict((k, v) for k, v in key))
+
+
+def _observe_col(f, dt):
+    arr = f.data[:]
+    assert len(arr) == len(f.data) == len(f)
+    if dt_code(arr.dtype) != dt_code(dt):
+        return ['DTYPE', str(arr.dtype)]
+    return [dt_code(dt), [np_value_enc(x) for x in arr]]
+
+
+def _run_multi(case):
+    fld, Session = _fld, _Session
+    s = Session()
+    path = None
+    specs = case['fields']
+    n = len(specs)
+    try:
+        df = None
+        if any(sp[1] for sp in specs):
+            path = _tmpfile()
+            ds = s.open_dataset(path, 'w', 'd')
+            df = ds.create_dataframe('df')
+        F, D = [None] * n, [None] * n
+
+        def touch(i):
+            # a field (and its .data wrapper) is created when the history first touches it: constructors run
+            # while other fields hold staged data
+            if F[i] is None:
+                sp = specs[i]
+                if sp[0] == 'idx':
+                    F[i] = (df.create_indexed_string('f%d' % i, chunksize=sp[2]) if sp[1]
+                            else fld.IndexedStringMemField(s, chunksize=sp[2]))
+                else:
+                    F[i] = _mk_plain(s, df, 'f%d' % i, sp[1], 'numeric', sp[2])
+                D[i] = F[i].data
+            return F[i]
+
+        for op in case['ops']:
+            i, o = op[0], op[1]
+            f = touch(i)
+            d = D[i]
+            isidx = specs[i][0] == 'idx'
+            arg = None
+            if o in 'pw':
+                arg = list(op[2]) if isidx else make_array(specs[i][2], op[2])
+            if o == 'p':
+                d.write_part(arg)
+                _scribble(arg)
+            elif o == 'c':
+                d.complete()
+            elif o == 'w':
+                d.write(arg)
+                _scribble(arg)
+            elif o == 'x':
+                d.clear()
+            elif o == 'o':
+                len(d)
+                d[:]
+                if isidx:
+                    f.indices[:]
+                    f.values[:]
+            elif o == 'r':
+                if isidx and not specs[i][1]:
+                    D[i] = fld.WriteableIndexedFieldArray(specs[i][2], f.indices, f.values)
+                    f._data_wrapper = D[i]
+                else:
+                    D[i] = f.data
+            else:
+                raise ValueError(op)
+        for i in range(n):
+            touch(i)
+
+        def observe(i, f, ro_group):
+            sp = specs[i]
+            if sp[0] == 'idx':
+                if sp[1]:
+                    ro = fld.IndexedStringField(s, ro_group['f%d' % i], None, write_enabled=False).data
+                else:
+                    ro = fld.ReadOnlyIndexedFieldArray(f, f.indices, f.values)
+                return _observe_idx(f, ro, [])
+            return _observe_col(f, sp[2])
+
+        sess = [observe(i, F[i], df._h5group if df is not None else None) for i in range(n)]
+        if path is None:
+            return [sess]
+        s.close_dataset('d')
+        s.close()
+        s = Session()
+        ds = s.open_dataset(path, 'r', 'd')
+        df = ds['df']
+        re = [observe(i, df['f%d' % i], df._h5group) for i in range(n) if specs[i][1]]
+        return [sess, re]
+    finally:
+        try:
+            s.close()
+        except Exception:
+            pass
+        if path and os.path.exists(path):
+            os.unlink(path)
+
+
+# ------------------------------------------------------------------------------- arrays as objects
+def _own_array(dt, vals, form):
+    """a caller array: form 0 = an array that owns its memory (base is None, writeable);
+    form 1 = a view into a larger buffer (what buffer[:n] of a staging buffer is)."""
+    np = _np
+    a = make_array(dt, vals)
+    if form == 1:
+        big = np.zeros(len(a) + 3, dtype=a.dtype)
+        big[2:2 + len(a)] = a
+        return big[2:2 + len(a)]
+    if a.base is not None:
+        a = a.copy()
+    assert a.base is None and a.flags.writeable and a.flags.owndata
+    return a
+
+
+def _scalar(dt, v):
+    return make_array(dt, [v])[0]
+
+
+def _run_alias(case):
+    np, fld, Session = _np, _fld, _Session
+    s = Session()
+    path = None
+    ft, dt = case['ft'], case['dt']
+    backs = case['fields']
+    try:
+        df = None
+        if any(backs):
+            path = _tmpfile()
+            ds = s.open_dataset(path, 'w', 'd')
+            df = ds.create_dataframe('df')
+        F = [_mk_plain(s, df, 'f%d' % i, h5, ft, dt, case.get('key')) for i, h5 in enumerate(backs)]
+        A = []
+
+        def argof(x):
+            if x[0] == 'a':
+                return A[x[1]]
+            if x[0] == 'as':
+                return A[x[1]][x[2]:x[3]]
+            g = F[x[1]].data[x[2]:x[3]]
+            assert isinstance(g, np.ndarray)
+            return g
+
+        for op in case['ops']:
+            o = op[0]
+            if o == 'new':
+                A.append(_own_array(dt, op[1], op[2]))
+            elif o == 'fill':
+                A[op[1]][:] = make_array(dt, op[2])
+            elif o == 'cset':
+                A[op[1]][op[2]] = _scalar(dt, op[3])
+            elif o == 'p':
+                F[op[1]].data.write_part(argof(op[2]))
+            elif o == 'w':
+                F[op[1]].data.write(argof(op[2]))
+            elif o == 'pm':
+                F[op[1]].data.write_part(A[op[2]], move_mem=True)
+            elif o == 'c':
+                F[op[1]].data.complete()
+            elif o == 'fset':
+                F[op[1]].data[op[2]] = _scalar(dt, op[3])
+            elif o == 'x':
+                F[op[1]].data.clear()
+            else:
+                raise ValueError(op)
+        callers = [[np_value_enc(x) for x in a] for a in A]
+        for a in A:
+            assert dt_code(a.dtype) == dt_code(dt)
+
+        def col(f):
+            r = _observe_col(f, dt)
+            return r if r[0] == 'DTYPE' else r[1]
+
+        fields = [col(f) for f in F]
+        if path is None:
+            return [callers, fields]
+        s.close_dataset('d')
+        s.close()
+        s = Session()
+        ds = s.open_dataset(path, 'r', 'd')
+        re = [col(ds['df']['f%d' % i]) for i, h5 in enumerate(backs) if h5]
+        return [callers, fields, re]
+    finally:
+        try:
+            s.close()
+        except Exception:
+            pass
+        if path and os.path.exists(path):
+            os.unlink(path)
+
+
 def run(case):
     if case['k'] == 'idx':
         return _run_idx(case)
+    if case['k'] == 'multi':
+        return _run_multi(case)
+    if case['k'] == 'alias':
+        return _run_alias(case)
     return _run_plain(case)
 
 
@@ -307,7 +556,48 @@ def _b(s):
     return list(s.encode())
 
 
+_OPC = {'p': 0, 'c': 1, 'w': 2, 'x': 3, 'r': 4, 'o': 5}
+
+
+def _arg_val(x):
+    return [0, x[1]] if x[0] == 'a' else [1 if x[0] == 'as' else 2, x[1], x[2], x[3]]
+
+
 def to_val(case):
+    if case['k'] == 'multi':
+        specs = [[0, sp[1], sp[2]] if sp[0] == 'idx' else [1, sp[1], dt_code(sp[2])] for sp in case['fields']]
+        ops = []
+        for op in case['ops']:
+            i, o = op[0], op[1]
+            sp = case['fields'][i]
+            if o in 'pw':
+                pl = [_b(x) for x in op[2]] if sp[0] == 'idx' else [enc_value(sp[2], x) for x in op[2]]
+                ops.append([i, [_OPC[o], pl]])
+            else:
+                ops.append([i, [_OPC[o]]])
+        return [3, specs, ops]
+    if case['k'] == 'alias':
+        dt = case['dt']
+        ops = []
+        for op in case['ops']:
+            o = op[0]
+            if o == 'new':
+                ops.append([0, [enc_value(dt, x) for x in op[1]]])
+            elif o == 'fill':
+                ops.append([1, op[1], [enc_value(dt, x) for x in op[2]]])
+            elif o == 'cset':
+                ops.append([2, op[1], op[2], enc_value(dt, op[3])])
+            elif o in 'pw':
+                ops.append([3, op[1], _arg_val(op[2])])
+            elif o == 'pm':
+                ops.append([4, op[1], op[2], 1])
+            elif o == 'c':
+                ops.append([5, op[1]])
+            elif o == 'fset':
+                ops.append([6, op[1], op[2], enc_value(dt, op[3])])
+            else:
+                ops.append([7, op[1]])
+        return [4, list(case['fields']), ops]
     if case['k'] == 'idx':
         ops = []
         for op in case['ops']:
@@ -321,6 +611,8 @@ def to_val(case):
                 ops.append([3])
             else:
                 ops.append([4])
+        if case.get('lite') is not None:
+            return [1, case['h5'], case['cs'], ops, [], [list(p) for p in case['lite']]]
         return [1, case['h5'], case['cs'], ops, [list(e) for e in case.get('extra', [])]]
     dt = case['dt']
     parts = [[dt_code(pdt), [enc_value(pdt, v) for v in vals]] for pdt, vals in case['parts']]
@@ -349,6 +641,16 @@ def _dec(v):
 
 def from_val(case, v):
     m, s = _dec(v[0]), _dec(v[1])
+    if case['k'] == 'multi':
+        h5 = [i for i, sp in enumerate(case['fields']) if sp[1]]
+        shape = lambda r: r if isinstance(r, str) else ([r, [r[i] for i in h5]] if h5 else [r])
+        return shape(m), shape(s)
+    if case['k'] == 'alias':
+        if s == -1:                       # the value semantics does not define this history: no claim
+            s = m
+        h5 = [i for i, b in enumerate(case['fields']) if b]
+        shape = lambda r: r if isinstance(r, str) else ([r[0], r[1], [r[1][i] for i in h5]] if h5 else [r[0], r[1]])
+        return shape(m), shape(s)
     if case['k'] == 'plain' and case['ft'] == 'categorical':
         names = [_b(k) for k, _ in case['key']]
         for r in (m, s):
@@ -428,10 +730,119 @@ def _idx_trace(case):
     return f
 
 
+def _hist_ok(ops):
+    """the histories of the property (coq hist_ok): nothing staged at the end, clear / new wrapper only when
+    nothing is staged.  ops: [name, payload?] of ONE field."""
+    pending = False
+    for op in ops:
+        if op[0] == 'p':
+            pending = True
+        elif op[0] in 'cw':
+            pending = False
+        elif op[0] in 'xr' and pending:
+            return False
+    return not pending
+
+
+def _multi_proj(case, i):
+    return [op[1:] for op in case['ops'] if op[0] == i]
+
+
+def _multi_written(case, i):
+    return _written({'ops': [o for o in _multi_proj(case, i) if o[0] != 'o']})
+
+
+def _multi_features(case):
+    f = set()
+    specs = case['fields']
+    kinds = set('h5' if sp[1] else 'mem' for sp in specs)
+    f.add('multi-' + ('mixed-backings' if len(kinds) == 2 else kinds.pop()))
+    css = [sp[2] for sp in specs if sp[0] == 'idx']
+    if len(css) >= 2:
+        f.add('multi-same-chunksize' if len(set(css)) < len(css) else 'multi-all-chunksizes-differ')
+    if len(specs) >= 3:
+        f.add('multi-3+fields')
+    if len(set(sp[0] for sp in specs)) == 2:
+        f.add('multi-plain+indexed')
+    pending = [False] * len(specs)
+    seen = set()
+    for op in case['ops']:
+        i, o = op[0], op[1]
+        others = any(pending[j] for j in range(len(specs)) if j != i)
+        if others:
+            if i not in seen:
+                f.add('multi-field-created-while-another-has-staged-data')
+            if o in 'pw':
+                f.add('multi-write-while-another-field-has-staged-data')
+            if o == 'o':
+                f.add('multi-read-while-another-field-has-staged-data')
+            if o == 'c':
+                f.add('multi-complete-while-another-field-has-staged-data')
+            if o in 'xr':
+                f.add('multi-clear/new-wrapper-while-another-field-has-staged-data')
+        seen.add(i)
+        if o == 'p' and op[2]:
+            pending[i] = True
+        elif o in 'cw':
+            pending[i] = False
+    return f
+
+
+def _alias_features(case):
+    f = set()
+    backs = case['fields']
+    f.add('alias-' + ('mixed-backings' if len(set(backs)) == 2 else 'h5' if backs[0] else 'mem'))
+    f.add('alias-%s:%s' % (case['ft'], case['dt']))
+    written = {}          # array k -> fields it was written to (whole or view) since its last change
+    forms = {}
+    nnew = 0
+    empty = [True] * len(backs)
+    for op in case['ops']:
+        o = op[0]
+        if o == 'new':
+            forms[nnew] = op[2]
+            nnew += 1
+        elif o in ('fill', 'cset'):
+            if written.get(op[1]):
+                f.add('alias-caller-refills-array-after-writing-it' if o == 'fill'
+                      else 'alias-caller-edits-array-after-writing-it')
+        elif o in 'pw':
+            x = op[2]
+            if x[0] in ('a', 'as'):
+                if empty[op[1]] and x[0] == 'a' and forms.get(x[1]) == 0:
+                    f.add('alias-first-write-is-an-array-owning-its-memory')
+                if x[0] == 'as' or forms.get(x[1]) == 1:
+                    f.add('alias-argument-is-a-view')
+                fs = written.setdefault(x[1], set())
+                if fs and op[1] not in fs:
+                    f.add('alias-same-array-written-to-two-fields')
+                if op[1] in fs:
+                    f.add('alias-same-array-object-written-twice-to-one-field')
+                fs.add(op[1])
+            else:
+                f.add('alias-argument-is-own-storage' if x[1] == op[1] else 'alias-argument-is-another-fields-storage')
+            empty[op[1]] = False
+        elif o == 'pm':
+            f.add('alias-move_mem(no-claim)')
+            empty[op[1]] = False
+        elif o == 'fset':
+            f.add('alias-field-edited-through-setitem')
+            if any(op[1] in fs and len(fs) > 1 for fs in written.values()):
+                f.add('alias-field-edited-after-sharing-an-argument-with-another-field')
+        elif o == 'x':
+            f.add('alias-clear-then-write-again')
+            empty[op[1]] = True
+    return f
+
+
 def features(case, model):
     f = set()
     if isinstance(model, str):
         f.add('err:' + model)
+    if case['k'] == 'multi':
+        return sorted(f | _multi_features(case))
+    if case['k'] == 'alias':
+        return sorted(f | _alias_features(case))
     if case['k'] == 'idx':
         f.add('idx-h5' if case['h5'] else 'idx-mem')
         f |= _idx_trace(case)
@@ -455,6 +866,12 @@ def features(case, model):
             f.add('out-of-range-read')
         if case['cs'] == 1 << 20:
             f.add('default-chunksize-1<<20')
+        if case.get('lite') is not None:
+            f.add('long-column(sampled-reads)')
+        if any(len(x.encode()) >= 256 for x in w):
+            f.add('string-of-256+-bytes')
+        if case.get('hot'):
+            f.add('planted-around-new-literal')
     else:
         f.add(('%s-%s' % (case['ft'], 'h5' if case['h5'] else 'mem')))
         f.add('dtype:' + case['dt'])
@@ -494,6 +911,10 @@ def _is_special(dt, bits):
 
 
 def nontrivial(case, model):
+    if case['k'] == 'multi':
+        return sum(1 for i in range(len(case['fields'])) if _multi_written(case, i)) >= 2
+    if case['k'] == 'alias':
+        return any(op[0] in ('p', 'w') for op in case['ops'])
     if case['k'] == 'idx':
         return len(_written(case)) >= 1 or len(case['ops']) >= 2
     return sum(len(vs) for _, vs in case['parts']) >= 1
@@ -503,6 +924,25 @@ def known(case, impl, model, spec, mode):
     """F-C01b: a memory-backed field keeps the dtype of the first array written, not its own.
        F-C01e: an indexed-string field that holds no entry stores offsets [] instead of [0]."""
     if impl != model:          # the model is faithful about both defects; anything else is new
+        return None
+    if case['k'] == 'multi':
+        # F-C01e per field: an indexed field that holds no entry stores offsets [] where the spec says [0]
+        if not (isinstance(impl, list) and isinstance(spec, list)):
+            return None
+        hit = False
+        h5 = [i for i, sp in enumerate(case['fields']) if sp[1]]
+        for blk, (ri, rs) in enumerate(zip(impl, spec)):
+            idxs = list(range(len(case['fields']))) if blk == 0 else h5
+            for i, a, b in zip(idxs, ri, rs):
+                if a == b:
+                    continue
+                if case['fields'][i][0] == 'idx' and not _multi_written(case, i) \
+                        and a[0] == [] and b[0] == [0] and a[1:] == b[1:]:
+                    hit = True
+                else:
+                    return None
+        return 'F-C01e' if hit else None
+    if case['k'] == 'alias':
         return None
     if case['k'] == 'plain' and not case['h5'] and case['parts'] and case['parts'][0][0] != case['dt']:
         # only the dtype may differ
@@ -718,6 +1158,432 @@ def gen_plain_chunksize(tier, rng):
                 yield {'k': 'plain', 'h5': 1, 'ft': ft, 'dt': dt, 'how': how, 'parts': parts, 'key': key, 'cs': cs}
 
 
+# ------------------------------------------------------------------------------- several fields: generators
+def _merges(a, b):
+    """all interleavings of the sequences a and b (order inside each kept)."""
+    if not a:
+        yield list(b)
+        return
+    if not b:
+        yield list(a)
+        return
+    for m in _merges(a[1:], b):
+        yield [a[0]] + m
+    for m in _merges(a, b[1:]):
+        yield [b[0]] + m
+
+
+ALPHA_A = ['', 'a', 'é€']            # 0, 1, 5 bytes
+B_HISTORIES = [[['w', ['X']]],
+               [['p', ['X', 'YZ']], ['c']],
+               [['p', ['Ω']], ['p', ['', 'W']], ['c']],
+               [['o'], ['p', ['']], ['c'], ['o']]]
+
+
+def _two_field_cases(nmax, specs_of):
+    for n in range(0, nmax + 1):
+        for seq in itertools.product(ALPHA_A, repeat=n):
+            for ha in _idx_histories(seq, with_empty_parts=(n <= 1)):
+                ta = [[0] + list(o) for o in ha]
+                for hb in B_HISTORIES:
+                    tb = [[1] + list(o) for o in hb]
+                    for m in _merges(ta, tb):
+                        for specs in specs_of:
+                            yield {'k': 'multi', 'fields': specs, 'ops': m}
+
+
+def _field_strings(rng, i, n):
+    tag = 'ABCDEFG'[i]
+    pool = ['', tag, tag + 'z', tag + 'é', tag + '€€', tag * 7, tag + '\U0001F600', '']
+    return [rng.choice(pool) for _ in range(n)]
+
+
+def _random_multi(rng):
+    k = rng.choice([2, 2, 3, 3, 4])
+    r = rng.random()
+    backs = [0] * k if r < 0.6 else [1] * k if r < 0.75 else [rng.randint(0, 1) for _ in range(k)]
+    same = rng.random() < 0.7
+    big_cs = (1 << 20) if rng.random() < 0.05 else 64
+    cs0 = rng.choice([1, 2, 3, 4, 5, 8, 16, big_cs])
+    specs, hists = [], []
+    for i in range(k):
+        if rng.random() < 0.75:
+            cs = cs0 if same else rng.choice([1, 2, 3, 4, 5, 8, 16, big_cs])
+            specs.append(['idx', backs[i], cs])
+            h = [['o']] if rng.random() < 0.1 else []      # reads only while the field itself has nothing staged
+            for rnd in range(2 if rng.random() < 0.25 else 1):
+                seq = _field_strings(rng, i, rng.randint(1, 6))
+                if rng.random() < 0.3:
+                    h.append(['w', seq])
+                else:
+                    nb = rng.randint(1, 3)
+                    cuts = sorted(rng.randint(0, len(seq)) for _ in range(nb - 1))
+                    j = 0
+                    for c in cuts + [len(seq)]:
+                        h.append(['p', seq[j:c]])
+                        j = c
+                    h.append(['c'])
+                if rng.random() < 0.3:
+                    h.append(['o'])
+                if rnd == 0 and rng.random() < 0.1:
+                    h.append(['x'])
+                elif rnd == 0 and not backs[i] and rng.random() < 0.2:
+                    h.append(['r'])
+            hists.append(h)
+        else:
+            dt = rng.choice(['int32', 'int64', 'float64', 'uint8'])
+            specs.append(['plain', backs[i], dt])
+            pool = _pool(dt)
+            seq = [rng.choice(pool) for _ in range(rng.randint(1, 6))]
+            nb = rng.randint(1, 3)
+            cuts = sorted(rng.randint(0, len(seq)) for _ in range(nb - 1))
+            h, j = [], 0
+            for c in cuts + [len(seq)]:
+                h.append(['p', seq[j:c]])
+                j = c
+            h.append(['c'])
+            hists.append(h)
+    # round-robin (a column-wise loader) or a random merge
+    ops = []
+    if rng.random() < 0.4:
+        pos = [0] * k
+        while any(pos[i] < len(hists[i]) for i in range(k)):
+            for i in range(k):
+                if pos[i] < len(hists[i]):
+                    ops.append([i] + hists[i][pos[i]])
+                    pos[i] += 1
+    else:
+        pos = [0] * k
+        live = [i for i in range(k) if hists[i]]
+        while live:
+            i = rng.choice(live)
+            ops.append([i] + hists[i][pos[i]])
+            pos[i] += 1
+            if pos[i] == len(hists[i]):
+                live.remove(i)
+    return {'k': 'multi', 'fields': specs, 'ops': ops}
+
+
+def gen_multi(tier, rng):
+    big = tier == 'thorough'
+    boost = 4 if hot.changed() else 1
+    # 1. exhaustive small: two indexed fields with the SAME chunk size, every interleaving of their histories
+    #    (64 = nothing is flushed before complete(), as with the production default 1 << 20, whose model run costs
+    #    0.4 s per field: the default itself is taken for every 320th case)
+    mem_same = [[['idx', 0, cs], ['idx', 0, cs]] for cs in (1, 2, 3, 64)]
+    k = 0
+    for c in _two_field_cases(3 if big else 2, mem_same):
+        yield c
+        k += 1
+        if c['fields'][0][2] == 64 and k % (160 if big else 320) == 0:
+            yield {'k': 'multi', 'fields': [['idx', 0, 1 << 20], ['idx', 0, 1 << 20]], 'ops': c['ops']}
+    # 2. different chunk sizes
+    for c in _two_field_cases(2 if big else 1, [[['idx', 0, 2], ['idx', 0, 3]], [['idx', 0, 3], ['idx', 0, 1]]]):
+        yield c
+    # 3. HDF5-backed in one dataframe, and mixed backings in one session
+    h5specs = [[['idx', 1, 2], ['idx', 1, 2]], [['idx', 1, 64], ['idx', 1, 64]],
+               [['idx', 1, 2], ['idx', 0, 2]]]
+    for c in _two_field_cases(2 if big else 1, h5specs):
+        yield c
+        k += 1
+        if c['fields'][0][2] == 64 and k % (80 if big else 160) == 0:
+            yield {'k': 'multi', 'fields': [['idx', 1, 1 << 20], ['idx', 1, 1 << 20]], 'ops': c['ops']}
+    # 4. two plain fields / a plain and an indexed field
+    ta = [[0, 'p', [1, 2]], [0, 'p', [3]], [0, 'c']]
+    for tb, spb in (([[1, 'p', [7]], [1, 'o'], [1, 'p', [8, 9]], [1, 'c']], ['plain', 0, 'int32']),
+                    ([[1, 'p', ['x', '']], [1, 'p', ['yz']], [1, 'c']], ['idx', 0, 2])):
+        for m in _merges(ta, tb):
+            for h5 in (0, 1):
+                yield {'k': 'multi', 'fields': [['plain', h5, 'int32'], [spb[0], h5, spb[2]]], 'ops': m}
+    # 5. structured random: 2..4 fields, batches, round-robin or random merges, reads, second rounds
+    for _ in range((1500 if big else 220) * boost):
+        yield _random_multi(rng)
+
+
+# ------------------------------------------------------------------------------- arrays as objects: generators
+def _vstep(st, op):
+    """value semantics of one op on st = (arrays, fields) (lists of lists); False when the op is outside the
+    histories the specification defines (generator-side only: never a verdict)."""
+    A, F = st
+    o = op[0]
+
+    def arg(x):
+        src = A if x[0] in ('a', 'as') else F
+        if not (0 <= x[1] < len(src)):
+            return None
+        l = src[x[1]]
+        if x[0] == 'a':
+            return list(l)
+        if not (0 <= x[2] <= x[3] <= len(l)):
+            return None
+        return list(l[x[2]:x[3]])
+
+    if o == 'new':
+        A.append(list(op[1]))
+    elif o == 'fill':
+        if not (0 <= op[1] < len(A)) or len(op[2]) != len(A[op[1]]):
+            return False
+        A[op[1]] = list(op[2])
+    elif o == 'cset':
+        if not (0 <= op[1] < len(A)) or not (0 <= op[2] < len(A[op[1]])):
+            return False
+        A[op[1]][op[2]] = op[3]
+    elif o in 'pw':
+        v = arg(op[2])
+        if v is None or not (0 <= op[1] < len(F)):
+            return False
+        F[op[1]] = F[op[1]] + v
+    elif o == 'c':
+        return 0 <= op[1] < len(F)
+    elif o == 'fset':
+        if not (0 <= op[1] < len(F)) or not (0 <= op[2] < len(F[op[1]])):
+            return False
+        F[op[1]][op[2]] = op[3]
+    elif o == 'x':
+        if not (0 <= op[1] < len(F)):
+            return False
+        F[op[1]] = []
+    else:
+        return False
+    return True
+
+
+def _valid_alias(ops, nfields):
+    st = ([], [[] for _ in range(nfields)])
+    return all(_vstep(st, op) for op in ops)
+
+
+ALIAS_TYPES = [
+    ('numeric', 'int32', None), ('numeric', 'int64', None), ('numeric', 'float64', None), ('numeric', 'uint8', None),
+    ('numeric', 'float32', None), ('timestamp', 'float64', None), ('fixed', 'S3', None),
+    ('categorical', 'int8', [['no', 0], ['yes', 1], ['maybe', 2]]),
+]
+
+
+def _tvals(ft, dt):
+    """distinct values of the type, cyclic."""
+    if ft == 'fixed':
+        return [[97], [98, 99], [100, 101, 102], [195, 169], [103], [104, 105], [106], [107, 108, 109]]
+    if ft == 'categorical':
+        return [0, 1, 2, 1, 0, 2, 2, 0]
+    if dt in FLOAT_POOL:
+        f = _f32 if dt == 'float32' else _f64
+        return [f(1.5), f(-3.25), f(0.0), FLOAT_POOL[dt][3], f(7.0), FLOAT_POOL[dt][5], f(1e10), f(-2.0)]
+    lo, hi = INT_RANGE[dt]
+    return [1, hi, lo, 2, hi - 1, 3, lo + 1, 100]
+
+
+def _acase(t, backs, ops):
+    ft, dt, key = t
+    return {'k': 'alias', 'ft': ft, 'dt': dt, 'key': key, 'fields': list(backs), 'ops': ops}
+
+
+def _alias_templates(t, n=2):
+    """the shapes of use that make storage sharing visible; n = batch length."""
+    V = _tvals(t[0], t[1])
+    b = lambda k: [V[(k * n + j) % len(V)] for j in range(n)]
+    for form in (0, 1):
+        for whole in (['a', 0], ['as', 0, 0, n]):
+            for first in 'pw':
+                # one preallocated batch array refilled for every batch
+                yield 1, [['new', b(0), form], [first, 0, whole], ['fill', 0, b(1)], ['p', 0, whole],
+                          ['fill', 0, b(2)], ['p', 0, whole], ['c', 0]]
+                # the caller edits / refills its array after the write
+                yield 1, [['new', b(0), form], [first, 0, whole], ['cset', 0, n - 1, V[5]], ['c', 0]]
+                yield 1, [['new', b(0), form], [first, 0, whole], ['c', 0], ['fill', 0, b(2)]]
+            # the same array written to two fields, one of them edited; then the caller's array edited
+            yield 2, [['new', b(0), form], ['w', 0, whole], ['w', 1, whole], ['fset', 0, 0, V[6]],
+                      ['cset', 0, n - 1, V[7]]]
+            yield 2, [['new', b(0), form], ['p', 1, whole], ['p', 0, whole], ['fset', 1, n - 1, V[6]], ['c', 0], ['c', 1]]
+            # clear, then the first write again
+            yield 1, [['new', b(0), form], ['w', 0, whole], ['x', 0], ['w', 0, whole], ['cset', 0, 0, V[5]],
+                      ['p', 0, whole], ['c', 0]]
+        # a field's own storage / another field's storage as the argument; then edits on either side
+        yield 2, [['new', b(0), form], ['p', 0, ['a', 0]], ['p', 0, ['f', 0, 0, n]], ['p', 1, ['f', 0, 1, n + 1]],
+                  ['fset', 0, 1, V[6]], ['fset', 1, 0, V[7]], ['p', 1, ['f', 1, 0, 1]], ['c', 0], ['c', 1]]
+        # two arrays, alternating
+        yield 1, [['new', b(0), form], ['new', b(1), 1 - form], ['p', 0, ['a', 0]], ['p', 0, ['a', 1]],
+                  ['fill', 0, b(2)], ['cset', 1, 0, V[6]], ['p', 0, ['a', 0]], ['c', 0]]
+
+
+def _alias_alphabet(t, pos):
+    V = _tvals(t[0], t[1])
+    v = lambda j: V[(2 * pos + j + 2) % len(V)]
+    return [['fill', 0, [v(0), v(1)]], ['cset', 0, 0, v(0)], ['p', 0, ['a', 0]], ['p', 1, ['a', 0]],
+            ['p', 0, ['as', 0, 0, 2]], ['p', 1, ['as', 0, 1, 2]], ['fset', 0, 0, v(1)], ['p', 0, ['f', 0, 0, 1]],
+            ['p', 1, ['f', 0, 0, 1]], ['x', 0]]
+
+
+def _alias_exhaustive(t, backs, maxlen):
+    V = _tvals(t[0], t[1])
+    for form in (0, 1):
+        start = [['new', [V[0], V[1]], form]]
+        for L in range(1, maxlen + 1):
+            for idxs in itertools.product(range(10), repeat=L):
+                ops = start + [_alias_alphabet(t, pos)[i] for pos, i in enumerate(idxs)]
+                if any(o[0] in 'pw' for o in ops) and _valid_alias(ops, 2):
+                    yield _acase(t, backs, ops)
+
+
+def _random_alias(rng):
+    t = rng.choice(ALIAS_TYPES)
+    V = _tvals(t[0], t[1])
+    nf = rng.randint(1, 3)
+    r = rng.random()
+    backs = [0] * nf if r < 0.65 else [1] * nf if r < 0.8 else [rng.randint(0, 1) for _ in range(nf)]
+    st = ([], [[] for _ in range(nf)])
+    ops = []
+
+    def push(op):
+        if _vstep(st, op):
+            ops.append(op)
+
+    n0 = rng.randint(1, 4)
+    push(['new', [rng.choice(V) for _ in range(n0)], rng.randint(0, 1)])
+    for _ in range(rng.randint(3, 10)):
+        A, F = st
+        k = rng.randrange(len(A))
+        f = rng.randrange(nf)
+        c = rng.random()
+        if c < 0.08 and len(A) < 3:
+            push(['new', [rng.choice(V) for _ in range(rng.randint(1, 4))], rng.randint(0, 1)])
+        elif c < 0.25:
+            push(['fill', k, [rng.choice(V) for _ in A[k]]])
+        elif c < 0.37:
+            push(['cset', k, rng.randrange(len(A[k])), rng.choice(V)])
+        elif c < 0.62:
+            push([rng.choice('pw'), f, ['a', k]])
+        elif c < 0.72:
+            a = rng.randint(0, len(A[k]))
+            push([rng.choice('pw'), f, ['as', k, a, rng.randint(a, len(A[k]))]])
+        elif c < 0.82:
+            g = rng.randrange(nf)
+            a = rng.randint(0, len(F[g]))
+            push(['p', f, ['f', g, a, rng.randint(a, len(F[g]))]])
+        elif c < 0.93:
+            if F[f]:
+                push(['fset', f, rng.randrange(len(F[f])), rng.choice(V)])
+        elif c < 0.97:
+            push(['x', f])
+        else:
+            push(['c', f])
+    return _acase(t, backs, ops)
+
+
+def gen_alias(tier, rng):
+    big = tier == 'thorough'
+    boost = 4 if hot.changed() else 1
+    # 1. the shapes of use, every field type, both backings
+    for t in ALIAS_TYPES:
+        for nf, ops in _alias_templates(t):
+            for h5 in (0, 1):
+                yield _acase(t, [h5] * nf, ops)
+            if nf == 2:
+                yield _acase(t, [0, 1], ops)
+    # 2. exhaustive small: one caller array, two fields, every sequence of <= 3 (thorough 4) statements out of 10
+    t64 = ALIAS_TYPES[1]
+    for c in _alias_exhaustive(t64, [0, 0], 4 if big else 3):
+        yield c
+    for backs in ([0, 1], [1, 0], [1, 1]):
+        for c in _alias_exhaustive(t64, backs, 3 if big else 2):
+            yield c
+    # 3. write_part(a, move_mem=True): the array is handed over (no claim; model fidelity only)
+    for t in (ALIAS_TYPES[0], ALIAS_TYPES[2]):
+        V = _tvals(t[0], t[1])
+        yield _acase(t, [0], [['new', [V[0], V[1]], 0], ['pm', 0, 0], ['cset', 0, 0, V[2]], ['c', 0]])
+        yield _acase(t, [0], [['new', [V[0], V[1]], 0], ['p', 0, ['a', 0]], ['pm', 0, 0], ['cset', 0, 0, V[2]], ['c', 0]])
+    # 4. structured random
+    for _ in range((1500 if big else 200) * boost):
+        yield _random_alias(rng)
+
+
+# ------------------------------------------------------------------------------- long columns / planted sizes
+def _lite_pairs(n):
+    ps = [(0, n), (0, 0), (n, n), (1, n - 1), (n // 2, n // 2 + 1), (255, 257), (n - 1, n), (0, 1)]
+    out = []
+    for a, b in ps:
+        if 0 <= a <= b <= n and (a, b) not in out:
+            out.append((a, b))
+    return [list(p) for p in out]
+
+
+def _lite_case(h5, cs, parts, hotflag=0):
+    n = sum(len(p) for p in parts)
+    c = {'k': 'idx', 'h5': h5, 'cs': cs, 'ops': [['p', p] for p in parts] + [['c']], 'extra': [],
+         'lite': _lite_pairs(n)}
+    if hotflag:
+        c['hot'] = 1
+    return c
+
+
+def gen_long(tier, rng):
+    """beyond the exhaustive scope: strings of >= 256 bytes, columns of >= 256 entries, chunk sizes around 256;
+    reads are sampled (first/last/middle/whole) — offsets and bytes are compared in full."""
+    for L in (255, 256, 257, 300):
+        for cs in (100, 255, 256, 257, 1 << 20):
+            s1 = 'x' * L
+            s2 = 'é' * (L // 2) + 'y' * (L % 2)           # L bytes, L/2 characters
+            for h5 in ((0, 1) if cs in (256, 1 << 20) and L in (256, 300) else (0,)):
+                yield _lite_case(h5, cs, [['a', s1], ['', s2, 'b']])
+    for n in (255, 256, 257, 1000):
+        pool = ['', 'a', 'bc', 'é', '€']
+        for cs in ((7, 255, 256, 257, 1000) if n < 1000 else (7, 256)):
+            seq = [pool[(i * 7 + i // 5) % 5] for i in range(n)]
+            cut = min(n, cs)
+            yield _lite_case(0, cs, [seq[:cut], seq[cut:cut + 1], seq[cut + 1:]])
+        yield _lite_case(1, 256, [[pool[i % 5] for i in range(n)]])
+
+
+def gen_hot(tier, rng):
+    """change-directed: lengths, chunk sizes, byte widths and batch lengths around every small integer literal that
+    is new in the tree under test."""
+    for K in hot.hot_sizes():
+        if K < 2:
+            continue
+        # indexed strings: chunk sizes K-1, K, K+1 (and the default) x entry counts / byte counts around K, 2K, K*cs
+        for cs in sorted(set([max(1, K - 1), K, K + 1])):
+            if cs * 2 * K > 6000000:
+                continue
+            for n in sorted(set([max(1, K - 1), K, K + 1, 2 * K, 2 * K + 1])):
+                if n > 20000:
+                    continue
+                seq = ['a' if i % 3 else '' for i in range(n)]
+                yield _lite_case(0, cs, [seq[:K], seq[K:]], 1)
+                seq = ['b'] * n
+                yield _lite_case(0, cs, [seq[:max(0, K - 1)], seq[max(0, K - 1):K + 1], seq[K + 1:]], 1)
+        for L in sorted(set([max(1, K - 1), K, K + 1, 2 * K])):
+            if L > 20000:
+                continue
+            for cs in ([K, 1 << 20] if K * L <= 6000000 else [1 << 20]):
+                if cs == 1 << 20 and L > 3000:
+                    continue
+                yield _lite_case(0, cs, [['x' * L, 'q'], ['é' * (L // 2)]], 1)
+                yield _lite_case(1, cs, [['x' * L], ['', 'q']], 1)
+        # several fields with chunk size K, K+1 entries each in two batches (full observation: small K only)
+        if K <= 24:
+            for h5 in (0, 1):
+                specs = [['idx', h5, K], ['idx', h5, K]]
+                a = ['a'] * (K + 1)
+                b = ['B'] * (K + 1)
+                ops = [[0, 'p', a[:K - 1]], [1, 'p', b[:K]], [0, 'p', a[K - 1:]], [1, 'p', b[K:]], [0, 'c'], [1, 'c']]
+                yield {'k': 'multi', 'fields': specs, 'ops': ops, 'hot': 1}
+        # plain columns of K-1, K, K+1, 2K values in batches of K (one plain field, data compared in full)
+        if K <= 20000:
+            for n in sorted(set([max(1, K - 1), K, K + 1, 2 * K])):
+                vals = [(i * 37) % 251 - 100 for i in range(n)]
+                for h5 in (0, 1):
+                    ops = [[0, 'p', vals[j:j + K]] for j in range(0, n, K)] + [[0, 'c']]
+                    yield {'k': 'multi', 'fields': [['plain', h5, 'int32']], 'ops': ops, 'hot': 1}
+            # a batch buffer of K values refilled
+            t = ALIAS_TYPES[0]
+            for nf, ops in _alias_templates(t, n=K):
+                if nf == 1:
+                    c = _acase(t, [0], ops)
+                    c['hot'] = 1
+                    yield c
+                    break
+
+
 def gen(tier, rng):
     for c in gen_plain(tier, rng):
         yield c
@@ -725,9 +1591,57 @@ def gen(tier, rng):
         yield c
     for c in gen_idx(tier, rng):
         yield c
+    for c in gen_hot(tier, rng):
+        yield c
+    for c in gen_long(tier, rng):
+        yield c
+    for c in gen_multi(tier, rng):
+        yield c
+    for c in gen_alias(tier, rng):
+        yield c
 
 
 def shrink(case):
+    for c in _shrink(case):
+        if c.get('lite') is not None:
+            c['lite'] = _lite_pairs(len(_written(c)))
+        yield c
+
+
+def _shrink(case):
+    if case['k'] == 'multi':
+        ops = case['ops']
+        n = len(case['fields'])
+
+        def ok(c):
+            return all(_hist_ok([o for o in _multi_proj(c, i) if o[0] != 'o']) for i in range(n))
+        for i in range(len(ops)):
+            c = dict(case)
+            c['ops'] = ops[:i] + ops[i + 1:]
+            if ok(c):
+                yield c
+            if ops[i][1] in 'pw' and ops[i][2]:
+                for j in range(len(ops[i][2])):
+                    c = dict(case)
+                    c['ops'] = [list(o) for o in ops]
+                    c['ops'][i] = ops[i][:2] + [ops[i][2][:j] + ops[i][2][j + 1:]]
+                    yield c
+        # drop the last field when the history does not touch it
+        if n > 1 and not any(o[0] == n - 1 for o in ops):
+            c = dict(case)
+            c['fields'] = case['fields'][:-1]
+            yield c
+        return
+    if case['k'] == 'alias':
+        ops = case['ops']
+        for i in range(len(ops)):
+            if ops[i][0] == 'new':
+                continue
+            c = dict(case)
+            c['ops'] = ops[:i] + ops[i + 1:]
+            if _valid_alias([o for o in c['ops'] if o[0] != 'pm'], len(case['fields'])):
+                yield c
+        return
     if case['k'] == 'idx':
         ops = case['ops']
         for i in range(len(ops)):
@@ -766,22 +1680,44 @@ RULE = ('exhaustive small scope. Indexed strings, memory-backed: every sequence 
         'with chunk sizes around the byte/entry totals. Plain fields: every numeric dtype x extreme/special values x '
         'every partition of sequences up to length 2 (+ some longer) x both backings; timestamps; fixed strings; '
         'categoricals with keys spanning the nformat range; cross-dtype writes; HDF5 plain fields with chunksize 1..3. '
-        'A new wrapper on the same datasets (HDF5: close + reopen r+) continuing the column. Non-trivial = at least one value written.')
+        'A new wrapper on the same datasets (HDF5: close + reopen r+) continuing the column. '
+        'EVERY argument object (list / ndarray; arrays alternately owning their memory and views into a larger '
+        'buffer) is overwritten right after the call that received it. '
+        'Several fields (kind multi): two indexed fields with the same chunk size in {1,2,3,64} (+ a sample at the '
+        'production default 1<<20), every history of field A (sequences of length <= 2 (3) over 3 strings, every '
+        'partition) x 4 histories of field B x EVERY interleaving; different chunk sizes; HDF5 fields of one dataframe; '
+        'mixed backings; plain + indexed; fields are created when first touched; reads in between; 220 (1500) random '
+        'worlds of 2..4 fields (round-robin batches or random merges, second rounds, clear, new wrapper). '
+        'Arrays as objects (kind alias): one caller array and two fields, every sequence of <= 3 (4) statements out of '
+        '10 (refill, edit, write whole / view / own storage / other field\'s storage, data[i] = v, clear) memory-backed, '
+        '<= 2 (3) with HDF5 fields; 16 shapes of use (refilled batch buffer, edit after write, one array to two fields, '
+        'clear then write) x 8 field types x both backings x owner / view; 200 (1500) random histories. '
+        'Long columns: strings of 255/256/257/300 bytes and 255/256/257/1000 entries with chunk sizes around 256 '
+        '(offsets and bytes compared in full, reads sampled). Change-directed: for every small integer literal K new in '
+        'the tree, chunk sizes K-1, K, K+1 x entry / byte counts K-1, K, K+1, 2K, 2K+1, fields sharing chunk size K, '
+        'plain columns and batch buffers of K values; 4x the random budget when any library source changed. '
+        'Non-trivial = at least one value written (multi: to at least two fields).')
 EXHAUSTIVE = {'quick': True, 'thorough': True}
 TRUSTED = ['numpy slicing / slice assignment / np.zeros and h5py dataset create/resize/slice are modelled as list '
            'operations (np_slice, np_assign in coq/Model/IdxWriter.v), exercised here, not verified',
            'str.encode()/bytes.decode() (UTF-8) stay in the harness: the model sees byte lists',
            'HDF5 persistence (close + reopen returns the bytes written) is observed by the correspondence only']
 ASSUMPTIONS = ['values written are representable in the field dtype (no casting overflow is modelled)',
+               'a field is read only while it has nothing staged itself (other fields may have); write_part(a, '
+               'move_mem=True) hands the array over and is outside the property (model fidelity only)',
                'fixed-string values do not end in NUL (numpy S dtype strips trailing NULs)',
                'chunksize >= 1']
 TECHNIQUE = ('Coq proof (state-machine model of WriteableIndexedFieldArray and of the memory/HDF5 field arrays = '
-             'concat/prefix-sum spec, for every chunksize and partition) + exhaustive small-scope differential '
-             'correspondence against /repo with real HDF5 files')
+             'concat/prefix-sum spec, for every chunksize and partition; a world of several fields: every interleaving '
+             '= the per-field histories; a heap of arrays with identity = the value semantics) + exhaustive small-scope '
+             'differential correspondence against /repo with real HDF5 files')
 LEVEL_TEXT = ('Theorems in coq/Props/C01.v prove for every chunksize >= 1, both backings and every history of '
               'write_part/complete/write calls that the stored offsets are the prefix sums of the entry lengths and the '
               'stored bytes their concatenation, that every in-range slice/item read returns the entries written, and '
-              'that appending through any partition yields the same array; the model is tied to /repo by running the '
+              'that appending through any partition yields the same array, that any interleaving of the histories of '
+              'several fields leaves each field with what its own history writes, and that (arrays modelled as objects '
+              'with identity) a field holds the values its argument had at the call whatever the caller or another '
+              'field does to the array afterwards; the model is tied to /repo by running the '
               'extracted model and the real classes (memory and HDF5 files, with close/reopen) on the same cases.')
 LEVEL_NOTE = ('Trusted: Coq kernel, extraction, harness. numpy/h5py are modelled as list operations; persistence across '
               'reopen, dtype and key fidelity are established by the correspondence only (partial).')
